@@ -121,7 +121,11 @@ def run(facts, tr, rep):
         if ac.def_.startswith("tokio::time::timeout::timeout_at"):
             # a deadline: accepted as now() + max_wait_duration / now().checked_add(max_wait_duration)
             ds = deadline_durations(tr, d)
-            ok = ds is not None and all(mentions_field(tr, x, "max_wait_duration") and peel(x)[0] != "binop" for x in ds)
+            # (beside it, a far-future fallback `now() + <constant>` for a limit too large to add to an instant is what
+            # tokio's own `timeout` does; a fallback to `now` itself is not of that form and is refused)
+            from ..util import _const_bounded
+            cfg = [x for x in (ds or []) if mentions_field(tr, x, "max_wait_duration") and peel(x)[0] != "binop"]
+            ok = ds is not None and bool(cfg) and all(x in cfg or _const_bounded(tr, x) for x in ds)
         else:
             ok = mentions_field(tr, d, "max_wait_duration") and d[0] != "binop"
         rep.ob("C07.ERRORS", skey(b, "timeout-duration" + ("" if ok else "@%s" % ac.name)), ok, ac.where(),
